@@ -194,6 +194,10 @@ void genPool(Case& c) {
   } else {
     for (int k = 0; k < 4; ++k) { Paths64 pp; int n = (int)G::range(1, 2); for (int t = 0; t < n; ++t) pp.push_back(GEN::randomPath(3, 8, 1000)); c.p["pool" + std::to_string(k)] = pp; }
   }
+  if (G::chance(5)) {   // one large pool entry: runs of very different size on one object (capacity kept from a larger run)
+    c.p["pool" + std::to_string(G::range(0, 3))] = {GEN::ring((int)G::range(80, 200), G::sym(200), G::sym(200), 600, 1000, G::coin()), GEN::ring((int)G::range(40, 120), G::sym(200), G::sym(200), 300, 900, G::coin())};
+    ST.count("pool_with_large_paths");
+  }
   ST.count("pool_kind_" + std::to_string(kind));
 }
 
@@ -320,6 +324,7 @@ Case genOffsetSeq() {
     }
     c.p["pool" + std::to_string(k)] = pp;
   }
+  if (G::chance(5)) { c.p["pool" + std::to_string(G::range(0, 3))] = {GEN::ring((int)G::range(80, 200), G::sym(300), G::sym(300), 900, 1000, G::coin())}; ST.count("pool_with_large_paths"); }
   int n = (int)G::range(3, 12);
   for (int k = 0; k < n; ++k) {
     static const std::vector<int> ops = {O_AddPaths, O_AddPaths, O_AddPaths, O_AddPath, O_Miter, O_ArcTol, O_PC, O_Rev, O_ExecPaths, O_ExecPaths, O_ExecTree, O_ExecCallback, O_Clear};
@@ -518,6 +523,7 @@ Case genRect() {
     int m = (int)G::range(0, 3);
     for (int j = 0; j < m; ++j) {
       Path64 p = GEN::randomPath(0, 9, M + M / 2);
+      if (G::chance(3)) { p = GEN::randomPath(60, 300, M + M / 2); ST.count("large_path"); }
       for (auto& q : p) { int s = (int)G::range(0, 9); if (s == 0) q.x = c.i["l"]; else if (s == 1) q.x = c.i["r"]; else if (s == 2) q.y = c.i["t"]; else if (s == 3) q.y = c.i["b"]; }
       pp.push_back(p);
     }
